@@ -486,9 +486,10 @@ fn item(it: &syn::Item) -> J {
             ("e", expr(&c.expr)),
         ]),
         syn::Item::Static(c) => obj(vec![
-            ("k", s("const")),
+            ("k", s("static")),
             ("name", s(c.ident.to_string())),
             ("ln", ln(&c.ident)),
+            ("mut", J::Bool(matches!(c.mutability, syn::StaticMutability::Mut(_)))),
             ("ty", s(toks(&c.ty))),
             ("e", expr(&c.expr)),
         ]),
